@@ -34,7 +34,7 @@ MIN_REACH = {
 TIME_BUDGET = {"quick": 300, "thorough": 3000}
 
 KINDS = ["int", "float", "bool", "str", "complex", "tuple:2", "tuple:3", "list:2", "list:2x3", "array:3",
-         "array:2x2", "mixed", "dict:2", "dataset:3", "dataarray:2", "multi:s,b,t"]
+         "array:2x2", "mixed", "dict:2", "dataset:3", "dataarray:2", "multi:s,b,t", "iarray:3", "barray:2", "iarray:2x2"]
 SPLIT_KINDS = ["tuple:2", "tuple:3", "multi:s,b,t", "multi:s,a2,l2x2", "mixed"]
 
 
